@@ -87,6 +87,9 @@ pub const BIT_MUTUAL_HTLCS: u64 = 13;
 pub const BIT_MUTUAL_FEE: u64 = 14;
 pub const BIT_MUTUAL_VALUE: u64 = 15;
 pub const BIT_PERMISSIVE: u64 = 30;
+/// bit 29: exact-match warn rules whose tags are proper PREFIXES of real tags; they must downgrade nothing
+pub const BIT_NEAR_MISS: u64 = 29;
+pub const NEAR_MISS_TAGS: [&str; 5] = ["policy-commitment-fee", "policy-commitment-htlc", "policy-commitment", "policy-mutual", "policy-channel-contest-delay-range"];
 
 // constants of the reference predicates, written down independently of the Lean side (BOLT-3 /
 // docs/policy-controls.md); if the implementation's constants change, the monitors say so.
@@ -165,6 +168,11 @@ impl Pol {
         let mut rules = Vec::new();
         if self.mask & (1 << BIT_PERMISSIVE) != 0 {
             rules.extend(PolicyFilter::new_permissive().rules);
+        }
+        if self.mask & (1 << BIT_NEAR_MISS) != 0 {
+            for t in NEAR_MISS_TAGS.iter() {
+                rules.push(FilterRule { tag: t.to_string(), is_prefix: false, action: FilterResult::Warn });
+            }
         }
         for (k, t) in MASK_TAGS.iter().enumerate() {
             if self.mask & (1 << k) != 0 {
@@ -368,6 +376,11 @@ pub struct ChanWorld {
     /// monitor's own record: contents already signed (counterparty) / validated (holder), per number
     pub seen_cp: BTreeSet<String>,
     pub seen_hold: BTreeSet<String>,
+    /// the harness's OWN record of the chain as fed to the signer: (height, funding depth, closing depth)
+    /// from the numbers of the last `chain` op or from the kinds of the blocks connected by `blk`/`unblk`
+    /// (never read back from the monitor under test)
+    pub own_chain: (u64, u64, u64),
+    pub own_kinds: Vec<u64>,
 }
 
 /// Deliver a block connection the way the front end does: compact proof, or streamed when the compact
@@ -749,7 +762,7 @@ impl World {
                 }
                 self.chan = Some(ChanWorld {
                     node_ctx, chan_ctx, setup: sn, funding_tx, blocks: Vec::new(), chain_mode: 0, filler: 0,
-                    seen_cp: BTreeSet::new(), seen_hold: BTreeSet::new(),
+                    seen_cp: BTreeSet::new(), seen_hold: BTreeSet::new(), own_chain: (3, 0, 0), own_kinds: Vec::new(),
                 });
                 "ok".into()
             }
@@ -803,6 +816,7 @@ impl World {
         js["mutual_closing_height"] = if cd == 0 { serde_json::Value::Null } else { serde_json::json!(h + 1 - cd) };
         js["unilateral_closing_height"] = serde_json::Value::Null;
         let state: lightning_signer::monitor::State = serde_json::from_value(js).unwrap();
+        cw.own_chain = (h, fd, cd);
         let cid = cw.chan_ctx.channel_id.clone();
         let base = ChainMonitorBase::new_from_persistence(funding_outpoint, state, &cid);
         cw.node_ctx
@@ -882,7 +896,10 @@ impl World {
         }));
         match r {
             Ok(Ok(b)) => {
-                self.chan.as_mut().unwrap().blocks.push(b);
+                let cw = self.chan.as_mut().unwrap();
+                cw.blocks.push(b);
+                cw.own_kinds.push(a[0]);
+                cw.own_chain = own_chain_of(&cw.own_kinds);
                 format!("ok {}", self.real_chain())
             }
             Ok(Err(e)) => format!("blk-refused {}", e),
@@ -913,7 +930,10 @@ impl World {
         }));
         match r {
             Ok(Ok(())) => {
-                self.chan.as_mut().unwrap().blocks.pop();
+                let cw = self.chan.as_mut().unwrap();
+                cw.blocks.pop();
+                cw.own_kinds.pop();
+                cw.own_chain = own_chain_of(&cw.own_kinds);
                 format!("ok {}", self.real_chain())
             }
             Ok(Err(e)) => format!("unblk-refused {}", e),
@@ -948,7 +968,8 @@ impl World {
         };
         // holder's outgoing HTLCs (received by the counterparty in its commitment) are backed by keysends
         self.add_keysends(&node, &received);
-        let chain_before = self.real_chain_state();
+        self.add_keysends(&node, &offered);
+        let chain_before = self.chan.as_ref().unwrap().own_chain;
         // pv >= 2: the PHASE-1 entry point (`sign_counterparty_commitment_tx`): the harness builds the
         // transaction and the output witness scripts the way the node software would, from the same values.
         // If that cannot be built (values outside what a transaction can carry), phase 2 is used.
@@ -1025,8 +1046,18 @@ impl World {
             (cw.node_ctx.node.clone(), cw.chan_ctx.channel_id.clone())
         };
         self.add_keysends(&node, &offered);
+        self.add_keysends(&node, &received);
+        // an HTLC whose second-stage transaction cannot be built (value below its fee; reachable only with
+        // the trim-limit check downgraded): no counterparty signatures can be produced, bad ones are sent
+        let underflow = {
+            let sn = &self.chan.as_ref().unwrap().setup;
+            !sn.zero_fee()
+                && (cm.offered.iter().any(|(v, _)| (*v as u128) < cm.feerate as u128 * 663 / 1000)
+                    || cm.received.iter().any(|(v, _)| (*v as u128) < cm.feerate as u128 * 703 / 1000))
+        };
+        let sigok = sigok && !underflow;
         // counterparty signatures over the holder commitment, made with the counterparty's keys
-        let sigs = {
+        let sigs = if underflow { Err(Box::new(()) as Box<dyn std::any::Any + Send>) } else {
             let cw = self.chan.as_ref().unwrap();
             catch_unwind(AssertUnwindSafe(|| {
                 let mut ctx = channel_commitment(&cw.node_ctx, &cw.chan_ctx, n, cm.feerate as u32, cm.to_holder,
@@ -1064,7 +1095,7 @@ impl World {
             // it looks at the signatures
             _ => (dummy, vec![dummy; nh]),
         };
-        let chain_before = self.real_chain_state();
+        let chain_before = self.chan.as_ref().unwrap().own_chain;
         let decodable = self.buildable(&cm);
         let r = match (want_phase1 && decodable, phase1) {
             (true, Some((tx, wit))) => {
@@ -1485,6 +1516,14 @@ impl World {
         // Lean `canonClose` through the correspondence)
         render_tx(&tx, &funding)
     }
+}
+
+/// chain state implied by the blocks the harness connected on top of height 3 (kind 1 = funding tx,
+/// kind 2 = spend of the funding outpoint): depth = number of blocks from that block to the tip
+fn own_chain_of(kinds: &[u64]) -> (u64, u64, u64) {
+    let n = kinds.len() as u64;
+    let depth = |k: u64| kinds.iter().position(|b| *b == k).map(|i| n - i as u64).unwrap_or(0);
+    (3 + n, depth(1), depth(2))
 }
 
 /// content of a commitment up to the order of its HTLCs (what `CommitmentInfo2` equality sees)
